@@ -70,6 +70,8 @@ class Model:
         self.known: set = set()                       # names redo has a Files row for (model's belief)
         self.interrupted: set = set()                 # targets whose script was running when the whole tree was killed
         self.ver_at_build: Dict[str, int] = {}        # version a target had right after its last successful build
+        self.tolerated: set = set()                   # targets whose last build went on without a dependency that failed
+        self.tolerate_now: set = set()                # (during a simulated build) targets whose dependency request has just failed
         self.noticed: set = set()                     # hand-edited generated files that a build command has looked at since
         for s, alpha in world.sources.items():
             if s in world.absent:
@@ -183,7 +185,13 @@ class Model:
 
         def text(v):
             return v.rstrip("\n")
-        for d in spec.deps:
+        if spec.tolerant and spec.deps:
+            vals = [dep(d) for d in spec.deps]
+            if (shallow and _top and name in self.tolerate_now) or any(v is FAIL or v is None for v in vals):
+                c += "!"          # the script goes on without them
+            else:
+                c += "".join(text(v) for v in vals)
+        for d in (() if spec.tolerant else spec.deps):
             v = dep(d)
             if v is FAIL or v is None:
                 return FAIL
@@ -231,7 +239,9 @@ class Model:
         """Ordered groups of (mode, [names]) the current script requests, given current sources.
         Each group is one redo-ifchange/ifcreate invocation."""
         groups = []
-        if spec.deps:
+        if spec.deps and spec.tolerant:
+            groups.append(("mt", list(spec.deps)))
+        elif spec.deps:
             if spec.split:
                 for d in spec.deps:
                     groups.append(("m", [d]))
@@ -285,6 +295,8 @@ class RefBuild:
         r = self.NO
         if not m.built.get(X) or m.failed.get(X) or not m.exists(X):
             r = self.YES
+        elif X in m.tolerated:
+            r = self.YES       # built without a dependency that could not be had: out of date until it is rebuilt with it
         elif m.kind_at_build.get(X) == "always" and X not in self.done:
             r = self.YES
         else:
@@ -574,7 +586,17 @@ class RefBuild:
         groups = m.script_deps(X, spec)
         for gi, (kind, payload) in enumerate(groups):
             self.kill_point(X, gi)
-            if kind == "m":
+            if kind == "mt":
+                # the script goes on when this request fails
+                for d in payload:
+                    newseen[d] = ("m", None)
+                if self.request_list(payload, parent=X):
+                    m.tolerate_now.discard(X)
+                    for d in payload:
+                        newseen[d] = ("m", m.ver.get(d, 0))
+                else:
+                    m.tolerate_now.add(X)
+            elif kind == "m":
                 for d in payload:
                     # dependency edges are recorded before the dependencies are built
                     newseen[d] = ("m", None)
@@ -635,6 +657,7 @@ class RefBuild:
                     okay = False
                     break
         if not okay:
+            m.tolerate_now.discard(X)
             m.failed[X] = True
             m.built[X] = m.built.get(X, False)
             self.done[X] = "fail"
@@ -661,6 +684,11 @@ class RefBuild:
             if X in m.ver_at_build:
                 m.ver[X] = m.ver_at_build[X]
         m.noticed.discard(X)
+        if X in m.tolerate_now:
+            m.tolerate_now.discard(X)
+            m.tolerated.add(X)      # built without something it asked for: it is out of date as long as that is so
+        else:
+            m.tolerated.discard(X)
         m.content[X] = v
         m.owner[X] = "redo"
         m.override.pop(X, None)
